@@ -61,9 +61,29 @@ func isSimpleExact(c [][4]float64) byte {
 }
 
 // Exact simplicity of a polyline (rational arithmetic on the exact values of the float64
-// ordinates): '1' simple, '0' not simple, '?' not judged (fewer than two points, repeated
-// consecutive points or non-finite ordinates - the conventions for those belong to C03).
+// ordinates): '1' simple, '0' not simple, '?' not judged (fewer than two distinct consecutive
+// points or non-finite ordinates - the conventions for those belong to C03).
+//
+// A vertex listed several times in a row (X and Y equal as numbers) does not change the curve:
+// the verdict is the one of the polyline with every such run contracted to one vertex (a ring that
+// lists a vertex twice in a row is still closed and simple; the implementation's IsSimple skips the
+// zero-length segments in the same way).
 func isSimpleExactUncached(c [][4]float64) byte {
+	for _, v := range c {
+		if v[0] != v[0] || v[1] != v[1] || v[0]-v[0] != 0 || v[1]-v[1] != 0 {
+			return '?'
+		}
+	}
+	if len(c) >= 2 {
+		d := make([][4]float64, 0, len(c))
+		for i, v := range c {
+			if i > 0 && v[0] == c[i-1][0] && v[1] == c[i-1][1] {
+				continue
+			}
+			d = append(d, v)
+		}
+		c = d
+	}
 	n := len(c)
 	if n < 2 {
 		return '?'
